@@ -462,10 +462,7 @@ func init() {
 			rv := m.settable(a[0], "SetLen", 23)
 			s, _ := load(rv.addr).([]value)
 			n := m.asTerm(a[1])
-			if !n.IsConst() {
-				m.abort("SetLen with symbolic length")
-			}
-			k := int(n.SVal())
+			k := int(m.concretize(n, "SetLen", cap(s)+2, true, nil))
 			if k < 0 || k > cap(s) {
 				m.reflPanic("reflect: slice length out of range in SetLen")
 			}
